@@ -94,6 +94,11 @@ func (q *Query) Has(what string) bool {
 }
 
 func (q *Query) parse(tokens []token) error {
+	for _, t := range tokens {
+		if t.isBareword && unbalancedBackquote(t.str) {
+			return errors.New(invalidQuery + "Unbalanced back-quote: " + t.str)
+		}
+	}
 	if _, err := q.parseTokens(tokens); err != nil {
 		return err
 	}
@@ -123,6 +128,13 @@ func (q *Query) parse(tokens []token) error {
 	}
 
 	return nil
+}
+
+func unbalancedBackquote(str string) bool {
+	if str == "`" {
+		return true
+	}
+	return strings.HasPrefix(str, "`") != strings.HasSuffix(str, "`")
 }
 
 // One can argue that this function is too large (as reported by automatic tools such
